@@ -10,6 +10,7 @@ def run(ctx):
     bridge.warm_up()
     quick = ctx.tier == "quick"
     editcheck.run_histories(ctx, ORACLES, 2500 if quick else 60000)
+    editcheck.run_histories(ctx, ORACLES, 24 if quick else 1200, tag="fft", fft=True)
     ctx.cov["rule"] = ("seeded edit histories (1-8 data points, 1-3 samples, grids 3-11, alpha log-uniform in [0.01,100] and changed between "
                        "operations, outliers on/off, persistence faults); after every applied operation log_p, log_p_one and the fused variant "
                        "on the live tree are compared with the FS-CRP reference model (term by term from the statement, own O(G^2) grid "
@@ -20,7 +21,7 @@ def run(ctx):
                                       "Tree.__eq__/__hash__/get_clades", "DataPoint.outlier_marginal_prob", "Tree likelihood recursion (direct path)"],
                              "stand_in": []}
     ctx.assumptions += ["top-level-clone term is the normalised form 1000^-(R-1)/Z(R) pinned by the repository's test_root_term",
-                        "grids < 1000 points: the FFT branch is not exercised in this tier"]
+                        "a few histories per run use grids of 1000-1100 points (FFT convolution branch) with data inside a small dynamic range"]
 
 
 def replay(ctx, obj):
